@@ -64,6 +64,8 @@ def _dir_pipeline(pl, sd, fix, info, cid):
     args = ["-dir", d, "-baseURL", base, "-version", p1["ver"], "-o", out]
     if p1["ver"] == "b1":
         args += ["-primaryURL", base + names[-1].split("/")[0] if False else base, "-ignoreErrors"]
+    if p1.get("override") == "variants":
+        args += ["-headerOverride", "Variants: Accept-Language;en;fr"]
     rc, so, se = run("gen-bundle", args, sd)
     ev = {"case": cid, "kind": "dirbundle", "ver": p1["ver"], "names": p1["names"], "basepath": b(base[len("https://example.com"):]), "files": files,
           "gen_exit": rc, "file": list(read(out)), "sign": "none", "dump_exit": -1, "sign_exit": -1, "dump2_exit": -1,
